@@ -1538,7 +1538,14 @@ impl Zeroconf {
             self.probing_handler();
 
             // check IP changes if next_ip_check is reached.
-            if now >= next_ip_check && next_ip_check > 0 {
+            if self.ip_check_interval == 0 {
+                // The check is disabled, possibly at run time: do not re-arm its timer.
+                next_ip_check = 0;
+            } else if next_ip_check == 0 {
+                // The check was enabled at run time.
+                next_ip_check = now + self.ip_check_interval;
+                self.add_timer(next_ip_check);
+            } else if now >= next_ip_check {
                 next_ip_check = now + self.ip_check_interval;
                 self.add_timer(next_ip_check);
 
